@@ -177,9 +177,12 @@ def build(case):
         if framing == "cl":
             return served, True, "raise", None, f"{k} of {len(body)} announced body bytes arrived"
         if framing == "chunked":
-            pos_term = chunk_lines(body)[-1][0]
+            lines = chunk_lines(body)
+            pos_term = lines[-1][0]
             if k <= pos_term:
-                return served, True, "raise", None, f"stream ends at {k}, terminating chunk line starts at {pos_term}"
+                # is the cut inside the size line of a NON-terminal chunk, after one or more digits that are all zeros?
+                zero_prefix = any(s0 < k < e0 and n0 != 0 and set(body[s0:k]) == {0x30} for s0, e0, n0 in lines)
+                return served, True, "raise", None, f"stream ends at {k}, terminating chunk line starts at {pos_term}" + (" [cut-in-zero-prefixed-size]" if zero_prefix else "")
             return served, True, "either", None, "cut inside the terminating chunk line / final CRLF"
         # close-delimited: only the decoder can tell
         part = body[:k]
@@ -275,6 +278,8 @@ def _run(case) -> list[Failure]:
     srv = respgen.OneShot(served, case.get("seg"), eof=eof, second=second)
     mut = case["mut"]
     sig = {"mut": mut["m"], "framing": case["framing"], "coded": bool([c for c in case.get("coding", []) if c != "identity"]), "decode": decode, "tail": case["tail"][0], "via": via}
+    if why.endswith("[cut-in-zero-prefixed-size]"):
+        sig["zero_prefixed_size_cut"] = True
     fails: list[Failure] = []
     ok_types = (ue.ProtocolError, ue.DecodeError, ue.IncompleteRead) + ((ue.InvalidHeader,) if mut["m"] == "clconflict" else ())
     with fakenet.Net(srv) as net:
@@ -347,7 +352,7 @@ def _run(case) -> list[Failure]:
                 if still_open or same_socket or second_state != "ok":
                     fails.append(Failure(
                         "conn-not-discarded",
-                        {"mut": mut["m"], "framing": case["framing"], "same_socket": same_socket, "second": second_state, "error": type(err).__name__ if err is not None else "drained"},
+                        {"mut": mut["m"], "framing": case["framing"], "same_socket": same_socket, "second": second_state, "error": type(err).__name__ if err is not None else "drained", **({"zero_prefixed_size_cut": True} if sig.get("zero_prefixed_size_cut") else {})},
                         f"{brief}: after {type(err).__name__ if err is not None else 'drain_conn()'} the socket #{first.sid} that carried the broken response is "
                         f"{'still open' if still_open else 'closed'}; the next request on the pool was {'written to that same socket' if same_socket else 'sent on another socket'} and {second_state}",
                     ))
@@ -454,6 +459,8 @@ def ex_cases(tier):
                         yield base
                         if framing == "cl" and coding in ([], ["gzip"]) and members == 1:
                             yield dict(base, cl_list=True)  # Content-Length: N, N
+                        if framing == "chunked" and coding in ([], ["gzip"]) and members == 1:
+                            yield dict(base, hexfmt=("X", "04x")[i % 2])  # chunk sizes in upper case / with leading zeros
 
 
 def _hyp():
@@ -498,6 +505,8 @@ def _hyp():
         c = mk(n, draw(st.integers(0, 50)), cod, members, framing, cs, ext, seg, decode, ops, t, via, None)
         if framing == "cl" and draw(st.integers(0, 3)) == 0:
             c["cl_list"] = True  # Content-Length: N, N
+        if framing == "chunked":
+            c["hexfmt"] = draw(st.sampled_from(["x", "x", "X", "04x"]))
         if framing == "chunked" and respgen.families(c) == {"A", "B"}:
             c["ops"] = []
         if big:
